@@ -100,9 +100,9 @@ SEGMENTS = {
     "K2": dict(
         file="src/dev/cache.rs", fn="flush_meta_generic", start="FULL",
         sig="pub(crate) fn seg_k2<A: Table + std::fmt::Debug, F>(&self, rt: &A, key_fn: F) -> Qcow2Result<bool> where F: Fn(u64) -> usize",
-        await_calls=["flush_cache", "call_fsync", "flush_table"], await_calls_opt=["flush_top_table"],
+        await_calls=["flush_cache", "call_fsync"], await_calls_opt=["flush_table", "flush_top_table"],
         rewrites=[(r"self\.k_flush_cache\(cache, ", "self.k_flush_cache_q("),
-                  (r"self\.k_flush_table\(", "self.k_flush_table_q("),
+                  (r"self\.k_flush_table\(", "self.k_flush_table_q(", 0),
                   (r"self\.k_call_fsync\(", "self.k_call_fsync_q(")],
     ),
     # ---- header write
